@@ -78,9 +78,10 @@ impl<'h> FindMatchesImpl<'h> {
         let mut result;
         trace!("Find next match from offset {}", self.offset);
         loop {
+            // The indices of the char_indices iterator are relative to the offset.
             result = self
                 .scanner_impl
-                .find_from(self.input, self.char_indices.clone());
+                .find_from(&self.input[self.offset..], self.char_indices.clone());
             if let Some(mut matched) = result {
                 self.advance_beyond_match(matched);
                 matched.add_offset(self.offset);
@@ -110,9 +111,10 @@ impl<'h> FindMatchesImpl<'h> {
         let mut mode_switch = false;
         let mut new_mode = 0;
         for _ in 0..n {
+            // The indices of the char_indices iterator are relative to the offset.
             let result = self
                 .scanner_impl
-                .peek_from(self.input, char_indices.clone());
+                .peek_from(&self.input[self.offset..], char_indices.clone());
             if let Some(mut matched) = result {
                 let token_type = matched.token_type();
                 Self::advance_char_indices_beyond_match(&mut char_indices, matched);
